@@ -53,7 +53,7 @@ static void display_hook(rfbClientPtr cl) {
   if (c) printf(" cur=%d,%d,%d,%d,%d", c->xhot, c->yhot, c->width, c->height,
                 (c->width == 1 && c->height == 1 && c->mask && c->mask[0] == 0) ? 1 : 0);
   else printf(" cur=none");
-  printf(" led=%d fbw=%d fbh=%d maxrects=%d cmw=%d cmh=%d nscr=%d scaled=%d\n", ledval,
+  printf(" bpp=%d led=%d fbw=%d fbh=%d maxrects=%d cmw=%d cmh=%d nscr=%d scaled=%d\n", cl->format.bitsPerPixel, ledval,
          cl->scaledScreen->width, cl->scaledScreen->height, cl->screen->maxRectsPerUpdate,
          cl->correMaxWidth, cl->correMaxHeight, cl->screen->numberOfExtDesktopScreensHook(cl),
          cl->screen != cl->scaledScreen);
